@@ -343,6 +343,20 @@ def session_scripts(rng, n_lit, n_mut, n_read):
             v2 = v if mi % 3 else NAMES[(li + 1) % len(NAMES)]
             mutators.append(SESSION_HEADER + f"{v2} = {lit}\n" + m.replace("{v}", v2) + r.replace("{v}", v2))
         out[lit] = {"readers": readers, "mutators": mutators}
+    # names in other roles: a script that binds a name to a constant, and scripts that use the same name without binding it
+    # that way (function parameter, loop variable, tuple target, sensor value, or not bound at all) - whatever the second
+    # kind is transpiled to alone, it must be transpiled to the same after the first
+    definers, users = [], []
+    role_names = ["k", "steps", "a"] if n_lit < len(LITERALS) else ["k", "steps", "a", "i", "xs", "data"]
+    for v in role_names:
+        for val in ("7", "[1, 0, 1]", "\"ab\"", "2.5", "True"):
+            definers.append(SESSION_HEADER + f"{v} = {val}\nmon.write({v})\n")
+        for u in ("def f({v}):\n    return {v} + 1\ny = f(2)\nmon.write(y)\n", "for {v} in range(3):\n    mon.write({v})\n", "{v}, w = 4, 5\nmon.write({v} + w)\n",
+                  "sleep({v})\n", "mon.write({v})\n", "led.blink({v}, 2)\n", "m = len({v})\nmon.write(m)\n", "led.flash_pattern({v})\n", "y = {v} + 1\nmon.write(y)\n",
+                  "if {v} > 1:\n    led.on()\n", "while {v} < 3:\n    led.toggle()\n", "{v} += 1\nmon.write({v})\n", "def g():\n    return {v}\nmon.write(g())\n",
+                  "{v} = analog_read(\"A0\")\nmon.write({v} + 1)\n", "led2 = Led({v})\n", "mon.write(f\"{{{v}}}\")\n", "ys = [{v}, 1]\nmon.write(len(ys))\n"):
+            users.append(SESSION_HEADER.replace("from Reduino.Displays import LCD\n", "from Reduino.Displays import LCD\nfrom Reduino.Core import analog_read\n") + u.replace("{v}", v))
+    out["<names in other roles>"] = {"readers": users, "mutators": definers}
     return out
 
 
